@@ -67,14 +67,21 @@ func errIsSentinel(from *ssa.BasicBlock, si int) (string, bool, bool) {
 }
 
 func runC20(c *Ctx) {
+	checkPublish(c, func(n string) string { return "C20-" + n })
+	runC20Rest(c)
+}
+
+// checkPublish: record-before-broadcast, removal on failing exits, no removal on accepted answers.
+// Shared by C20 (R1-R3) and C06 (R5).
+func checkPublish(c *Ctx, rn func(string) string) {
 	p := c.P
-	rel := walletFn(c, "C20-R1", "reliablyPublishTransaction")
-	pub := walletFn(c, "C20-R1", "publishTransaction")
-	addRel := walletFn(c, "C20-R1", "addRelevantTx")
+	rel := walletFn(c, rn("R1"), "reliablyPublishTransaction")
+	pub := walletFn(c, rn("R1"), "publishTransaction")
+	addRel := walletFn(c, rn("R1"), "addRelevantTx")
 	rm := p.Func("wtxmgr", "Store", "RemoveUnminedTx")
 	if rel == nil || pub == nil || addRel == nil || rm == nil {
 		if rm == nil {
-			c.Unresolved("C20-R1", "wtxmgr.Store.RemoveUnminedTx")
+			c.Unresolved(rn("R1"), "wtxmgr.Store.RemoveUnminedTx")
 		}
 		return
 	}
@@ -89,11 +96,11 @@ func runC20(c *Ctx) {
 		}
 	}
 	if recording == nil {
-		c.Check("C20-R1", "recording-update-exists", rel.Pos(), false, "reliablyPublishTransaction has no walletdb.Update that records the transaction (reaches addRelevantTx)")
+		c.Check(rn("R1"), "recording-update-exists", rel.Pos(), false, "reliablyPublishTransaction has no walletdb.Update that records the transaction (reaches addRelevantTx)")
 		return
 	}
 	sendTargets := p.methodsNamed("chain", "SendRawTransaction")
-	c.Floor("C20-R1", "SendRawTransaction implementations", len(sendTargets), 3)
+	c.Floor(rn("R1"), "SendRawTransaction implementations", len(sendTargets), 3)
 	isSend := func(ins ssa.Instruction) bool {
 		return isInvokeNamed("SendRawTransaction")(ins) || p.reachingCall(append(sendTargets, pub)...)(ins)
 	}
@@ -109,10 +116,10 @@ func runC20(c *Ctx) {
 			}
 			nSend++
 			ok := !reachableAvoiding(rel, nil, ins, okEdge)
-			c.Check("C20-R1", "record-before-broadcast", ins.Pos(), ok, "the broadcast can be reached without the recording update having succeeded (a crash after broadcast would lose the spend)")
+			c.Check(rn("R1"), "record-before-broadcast", ins.Pos(), ok, "the broadcast can be reached without the recording update having succeeded (a crash after broadcast would lose the spend)")
 		}
 	}
-	c.Floor("C20-R1", "broadcast calls in reliablyPublishTransaction", nSend, 1)
+	c.Floor(rn("R1"), "broadcast calls in reliablyPublishTransaction", nSend, 1)
 
 	// R2a: reliablyPublishTransaction: after recording succeeded, every error return passes a removal
 	for _, b := range rel.Blocks {
@@ -130,7 +137,7 @@ func runC20(c *Ctx) {
 			if len(hits) > 0 {
 				detail = "after the transaction was recorded, the error return at " + p.Pos(hits[0].Ins.Pos()) + " is reachable without removing it again (failed hand-over leaves the transaction recorded, inputs spent)"
 			}
-			c.Check("C20-R2", "failed-handover-forgets:reliablyPublishTransaction", lastPos(b), len(hits) == 0, detail)
+			c.Check(rn("R2"), "failed-handover-forgets:reliablyPublishTransaction", lastPos(b), len(hits) == 0, detail)
 		}
 	}
 	// R2b: publishTransaction: from the send, every error return passes a removal
@@ -141,7 +148,7 @@ func runC20(c *Ctx) {
 		}
 	}
 	if send == nil {
-		c.Check("C20-R2", "send-site", pub.Pos(), false, "publishTransaction has no SendRawTransaction call (undecided)")
+		c.Check(rn("R2"), "send-site", pub.Pos(), false, "publishTransaction has no SendRawTransaction call (undecided)")
 		return
 	}
 	{
@@ -155,7 +162,7 @@ func runC20(c *Ctx) {
 		if len(hits) > 0 {
 			detail = "after a failed broadcast the error return at " + p.Pos(hits[0].Ins.Pos()) + " is reachable without an update that reaches RemoveUnminedTx: a rejected transaction stays recorded"
 		}
-		c.Check("C20-R2", "rejected-broadcast-forgets:publishTransaction", send.Pos(), len(hits) == 0, detail)
+		c.Check(rn("R2"), "rejected-broadcast-forgets:publishTransaction", send.Pos(), len(hits) == 0, detail)
 	}
 	// R3: accepted classes never remove
 	nAcc := 0
@@ -177,7 +184,7 @@ func runC20(c *Ctx) {
 			q := &PathQuery{Fn: pub}
 			q.Target = func(ins ssa.Instruction, via *ssa.BasicBlock) bool { return isRemoval(ins) }
 			hits := exploreFromBlock(q, b.Succs[si], b)
-			c.Check("C20-R3", "no-removal-when:"+accepted, lastPos(b), len(hits) == 0,
+			c.Check(rn("R3"), "no-removal-when:"+accepted, lastPos(b), len(hits) == 0,
 				"a transaction the backend "+accepted+" can be removed from the unconfirmed store (its inputs become spendable again while it is pending)")
 			// and returns success
 			q2 := &PathQuery{Fn: pub}
@@ -186,10 +193,10 @@ func runC20(c *Ctx) {
 				return ok && p.classifyReturn(r, via) == retError
 			}
 			hits = exploreFromBlock(q2, b.Succs[si], b)
-			c.Check("C20-R3", "success-when:"+accepted, lastPos(b), len(hits) == 0, "an accepted broadcast answer is reported as an error")
+			c.Check(rn("R3"), "success-when:"+accepted, lastPos(b), len(hits) == 0, "an accepted broadcast answer is reported as an error")
 		}
 	}
-	c.Floor("C20-R3", "accepted-answer edges in publishTransaction", nAcc, 2)
+	c.Floor(rn("R3"), "accepted-answer edges in publishTransaction", nAcc, 2)
 	// the already-known/confirmed classes are sentinel tests too
 	nSent := 0
 	for _, b := range pub.Blocks {
@@ -199,8 +206,16 @@ func runC20(c *Ctx) {
 			}
 		}
 	}
-	c.Floor("C20-R3", "errors.Is classifications against chain sentinels", nSent, 3)
+	c.Floor(rn("R3"), "errors.Is classifications against chain sentinels", nSent, 3)
 
+}
+
+func runC20Rest(c *Ctx) {
+	p := c.P
+	pub := walletFn(c, "C20-R4", "publishTransaction")
+	if pub == nil {
+		return
+	}
 	// R4: rebroadcast plumbing
 	rs := walletFn(c, "C20-R4", "resendUnminedTxs")
 	um := p.Func("wtxmgr", "Store", "UnminedTxs")
